@@ -109,12 +109,13 @@ Qed.
 (* ---------------------------------------------------------------- shapes of one printed character *)
 Inductive eshape (bytes : bool) (c : N) : text -> Prop :=
 | ShPlain : c <> c_bs -> c <> c_dq -> c <> c_cr -> (bytes = true -> c < 128) -> eshape bytes c [c]
-| ShSimple e : simple_escape e = Some c -> mem e [92; 39; 34; 116; 110; 114] = true -> eshape bytes c [c_bs; e]
+| ShSimple e : simple_escape e = Some c -> mem e [92; 39; 34; 116; 110; 114; 97; 98; 102; 118] = true -> eshape bytes c [c_bs; e]
 | ShX : c < 256 -> eshape bytes c (esc_x c)
 | ShU : bytes = false -> c < 65536 -> eshape bytes c (esc_u c)
 | ShUU : bytes = false -> c < 1114112 -> eshape bytes c (esc_U c).
 
-Lemma mem6 e : mem e [92; 39; 34; 116; 110; 114] = true -> e = 92 \/ e = 39 \/ e = 34 \/ e = 116 \/ e = 110 \/ e = 114.
+Lemma mem6 e : mem e [92; 39; 34; 116; 110; 114; 97; 98; 102; 118] = true ->
+  e = 92 \/ e = 39 \/ e = 34 \/ e = 116 \/ e = 110 \/ e = 114 \/ e = 97 \/ e = 98 \/ e = 102 \/ e = 118.
 Proof.
   intros H. apply mem_In in H. simpl in H. intuition.
 Qed.
@@ -130,7 +131,7 @@ Proof.
   - cbn [app]. rewrite cu_step by (left; reflexivity). rewrite qstep_plain by assumption. reflexivity.
   - cbn [app]. rewrite cu_step by (left; reflexivity). rewrite qstep_bs. cbn [negb].
     rewrite cu_step by (left; reflexivity).
-    destruct (mem6 e Hm) as [->|[->|[->|[->|[->| ->]]]]]; destruct bytes; reflexivity.
+    destruct (mem6 e Hm) as [->|[->|[->|[->|[->|[->|[->|[->|[->| ->]]]]]]]]]; destruct bytes; reflexivity.
   - unfold esc_x. cbn [app]. rewrite cu_step by (left; reflexivity). rewrite qstep_bs. cbn [negb].
     rewrite cu_step by (left; reflexivity). rewrite qstep_esc by (try discriminate; destruct bytes; reflexivity).
     rewrite scan_inert by apply hex_fixed_inert. cbn [rev app]. rewrite <- !app_assoc. reflexivity.
@@ -169,7 +170,7 @@ Lemma shape_no_cr bytes c t : eshape bytes c t -> no_cr t = true.
 Proof.
   intros H. destruct H as [_ _ A _|e He Hm|Hc|Hb Hc|Hb Hc].
   - simpl. apply N.eqb_neq in A. rewrite A. reflexivity.
-  - destruct (mem6 e Hm) as [->|[->|[->|[->|[->| ->]]]]]; reflexivity.
+  - destruct (mem6 e Hm) as [->|[->|[->|[->|[->|[->|[->|[->|[->| ->]]]]]]]]]; reflexivity.
   - unfold esc_x. cbn [no_cr forallb]. fold (no_cr (hex_fixed 2 c)). rewrite inert_no_cr by apply hex_fixed_inert. reflexivity.
   - unfold esc_u. cbn [no_cr forallb]. fold (no_cr (hex_fixed 4 c)). rewrite inert_no_cr by apply hex_fixed_inert. reflexivity.
   - unfold esc_U. cbn [no_cr forallb]. fold (no_cr (hex_fixed 8 c)). rewrite inert_no_cr by apply hex_fixed_inert. reflexivity.
@@ -187,7 +188,7 @@ Lemma shape_ascii c t : eshape true c t -> asciib t = true.
 Proof.
   intros H. destruct H as [_ _ _ A|e He Hm|Hc|Hb Hc|Hb Hc]; try discriminate.
   - simpl. specialize (A eq_refl). apply N.ltb_lt in A. rewrite A. reflexivity.
-  - destruct (mem6 e Hm) as [->|[->|[->|[->|[->| ->]]]]]; reflexivity.
+  - destruct (mem6 e Hm) as [->|[->|[->|[->|[->|[->|[->|[->|[->| ->]]]]]]]]]; reflexivity.
   - unfold esc_x. cbn [asciib forallb]. fold (asciib (hex_fixed 2 c)). rewrite inert_ascii by apply hex_fixed_inert. reflexivity.
 Qed.
 
@@ -198,7 +199,7 @@ Proof.
   intros H f u. destruct H as [A _ _ _|e He Hm|Hc|Hb Hc|Hb Hc].
   - apply N.eqb_neq in A. cbn [app unescape]. rewrite A. reflexivity.
   - cbn [app unescape]. change (N.eqb c_bs c_bs) with true. cbv iota.
-    destruct (mem6 e Hm) as [->|[->|[->|[->|[->| ->]]]]]; cbv in He; inversion He; subst; reflexivity.
+    destruct (mem6 e Hm) as [->|[->|[->|[->|[->|[->|[->|[->|[->| ->]]]]]]]]]; cbv in He; inversion He; subst; reflexivity.
   - unfold esc_x. cbn [app unescape]. change (N.eqb c_bs c_bs) with true. cbv iota.
     change (N.eqb 120 c_nl) with false. change (simple_escape 120) with (@None N). change (octval 120) with (@None N).
     change (N.eqb 120 120) with true. cbv iota.
